@@ -9,6 +9,8 @@ PROPS["C18"] = {
     "harnesses": [
         {"pkg": "api", "name": "VerifC18_Stall", "quick": {"d": 0}, "thorough": {"d": 0}, "native": False,
          "bounds": {"follower": "websocket client that never reads (socket write blocks for ever)", "lines written": "10 or 300 (the follower's queue holds 256)"}},
+        {"pkg": "api", "name": "VerifC18_Disconnect", "quick": {"d": 2}, "thorough": {"d": 3}, "native": False,
+         "bounds": {"follower": "websocket client that reads 3 lines and disconnects at any scheduling point, or that stopped reading (300 lines, queue of 256 full) and then disconnects", "socket": "a blocked write fails once the peer is gone"}},
         {"pkg": "pclog", "name": "VerifC18_Range", "quick": {}, "thorough": {},
          "bounds": {"len": "[0,1100] symbolic", "offset": "full int64", "limit": "full int64"}},
         {"pkg": "pclog", "name": "VerifC18_Write", "quick": {}, "thorough": {},
@@ -325,5 +327,5 @@ _lv("C14", 'ProcessConfig.Compare on two configurations with symbolic launch-rel
 _lv("C17", "getProcessEnvironment for symbolic inherited/global/per-process layers under exec's last-duplicate-wins; loadProjectFromFile with os.ExpandEnv interpreted from the standard library's SSA on 1-3 tokens from {literal, $$, $VX, ${VX}, ${VY}} with expansion on/off: expanded text = concatenation of the token images. Project: runner-level launch environment with env_cmds results appended to the project environment (spare capacity): each process sees its own per-process variables only.",
     'os.Environ/ReadFile/Getenv/godotenv/yaml.Unmarshal bound to stubs under symgo (natively the real file, environment and YAML decoder); .env parsing outside.')
 
-_lv("C18", 'GetLogRange for every length 0..1100 and full-int64 offset/limit on an abstract buffer; one Write from boundary states around the trimming point for symbolic size; subscription with any tail length after any number of 4 writes, unsubscribe at any point, concurrent writer (d=3): tail then every later line once, in order; websocket follower that never reads vs 300 writes.',
+_lv("C18", 'GetLogRange for every length 0..1100 and full-int64 offset/limit on an abstract buffer; one Write from boundary states around the trimming point for symbolic size; subscription with any tail length after any number of 4 writes, unsubscribe at any point, concurrent writer (d=3): tail then every later line once, in order; websocket follower that never reads vs 300 writes; websocket follower that disconnects while reading or after it stopped reading: no Write panics or stays held up once the follower is gone.',
     'Abstract backing store for Range; Stall is engine-only (known finding).')
